@@ -102,6 +102,13 @@ func (s *streamEvaluator) Evaluate(filename string, reader io.Reader, node *Expr
 		if errorParsing != nil {
 			return currentIndex, errorParsing
 		}
+		// results cut loose from the document (no Parent) still belong to it: the printer
+		// decides on document separators by the document / file index a result reports
+		for el := result.MatchingNodes.Front(); el != nil; el = el.Next() {
+			if n := el.Value.(*CandidateNode); n.Parent == nil {
+				n.document, n.fileIndex, n.filename = currentIndex, s.fileIndex, filename
+			}
+		}
 		err := printer.PrintResults(result.MatchingNodes)
 
 		if err != nil {
